@@ -1,4 +1,5 @@
 import GMGModel.Hex
+import GMGModel.Scalar
 /-! Driver utilities: line protocol parsing, counters. -/
 namespace Drv
 
@@ -38,4 +39,29 @@ partial def forLines (h : IO.FS.Stream) (init : σ) (f : σ → String → IO σ
   let s ← f init line
   forLines h s f
 
+end Drv
+
+/-- magnitude semiring: evaluating a kernel over `AbsQ` on absolute values of its inputs gives the sum of the
+    magnitudes of all its terms (every subtraction becomes an addition), the scale of the rounding allowance -/
+structure AbsQ where
+  v : Rat
+instance : Scalar AbsQ where
+  add a b := ⟨a.v + b.v⟩
+  sub a b := ⟨a.v + b.v⟩
+  mul a b := ⟨a.v * b.v⟩
+  div a b := ⟨a.v / b.v⟩
+  neg a := a
+  ofNat k := ⟨(k : Rat)⟩
+
+namespace Drv
+def absq (q : Rat) : AbsQ := ⟨Hex.rabs q⟩
+
+/-- exact value of a Float (finite) -/
+def floatToRat (f : Float) : Rat := (Hex.bitsToRat f.toBits.toNat).getD 0
+
+def parseFloatsA (s : String) : Array Float :=
+  if s == "-" ∨ s.isEmpty then #[] else
+  (s.splitOn ",").foldl (fun a t => match Hex.parseFloat t with | some f => a.push f | none => a) #[]
+def parseRatsA (s : String) : Array Rat :=
+  if s == "-" ∨ s.isEmpty then #[] else (Hex.parseVec s).getD #[]
 end Drv
